@@ -1261,13 +1261,20 @@ class Workflow(Trellis):
         for i, path in action_lists["completed"]:
             self.mark_consuming_steps_pending(File(self, i, path))
 
-    def get_file_hashes(self, paths: Collection[str]) -> dict[str, FileHash]:
+    def get_file_hashes(
+        self, paths: Collection[str], *, cause: HashUpdateCause | None = None
+    ) -> dict[str, FileHash]:
         """Get the hashes of existing files.
 
         Parameters
         ----------
         paths
             A list of paths.
+        cause
+            When given, only the files are included whose state `update_file_hashes`
+            can process for this cause, i.e. the states with a row in `_HASH_TRANSITIONS`.
+            A detached node can be in any other state (e.g. `UNDECLARED`),
+            for which a new hash means nothing.
 
         Returns
         -------
@@ -1288,10 +1295,15 @@ class Workflow(Trellis):
         db = self.db
         db.execute("DELETE FROM path_list")
         db.executemany("INSERT INTO path_list VALUES (?)", ((path,) for path in paths))
+        where_states = ""
+        if cause is not None:
+            states = sorted({state.value for (c, state, _) in _HASH_TRANSITIONS if c == cause})
+            where_states = f"AND file.state IN ({', '.join(str(state) for state in states)}) "
         sql = (
             "SELECT node.label, file.hash FROM node "
             "JOIN file ON file.node = node.i "
             "WHERE node.kind = 'file' AND node.label IN (SELECT path FROM path_list) "
+            f"{where_states}"
             "ORDER BY node.label"
         )
         return {path: FileHash.from_json(hash_value) for path, hash_value in db.execute(sql)}
